@@ -84,7 +84,7 @@ def run(ctx):
 
     # ---- 1. the protocol model, exhaustive ---------------------------------------------------------------------
     mod, cfg = mcgen.write_mc(d, "ut_all", "UserTrigger", {"Ns": set(range(1, 9)), "Variant": "code"}, invariants=invs)
-    ctx.tlc_check(d, mod, cfg, must_cover=("Ready", "Trigger", "Deliver"), workers=4)
+    ctx.tlc_check(d, mod, cfg, must_cover=("Ready", "Trigger", "Deliver"), workers=2)
     ctx.exhaustive = True
     mod, cfg = mcgen.write_mc(d, "ut_le", "UserTrigger", {"Ns": {4}, "Variant": "le"}, invariants=("AtMostOnce",))
     r = ctx.tlc_check(d, mod, cfg, expect_ok=False, workers=2)
